@@ -387,7 +387,40 @@ def frame_check(field, vals, old_vals):
     return 'held', 'field unchanged natively'
 
 
+def smoke(path):
+    """run the real function once per clause on a solver-chosen input and evaluate every postcondition natively"""
+    info = json.load(open(path))
+    inputs = info['counter_model']['inputs']
+    out = {'clauses': []}
+    raises = info.get('raises') or {}
+    for nm, ex in info.get('clauses') or []:
+        one = dict(info, kind='ensures', clause=ex, obligation=f"{info['contract']}#{nm}")
+        try:
+            st, detail = run_once(one, inputs)
+        except Exception as e:
+            st, detail = 'error', f'{type(e).__name__}: {e}'
+        if st == 'precondition-false':
+            out['precondition'] = 'false'
+            break
+        if st == 'held' and 'native run raised' in detail:
+            # the function raised: acceptable only if a declared raises condition covers it
+            exc_name = detail.split('native run raised ')[1].split(':')[0]
+            declared = [k for k in raises if k == exc_name or exc_name.endswith(k)]
+            st = 'held' if declared else 'failed'
+            detail = f'{detail} (declared raises: {list(raises)})'
+        st = {'reproduced': 'failed'}.get(st, st)
+        d = str(detail)
+        if st == 'failed' and ("'NS' object" in d or "has no attribute" in d or 'unexpected keyword argument' in d):
+            st = 'error'          # ghost objects / call conventions of the contract that the native harness cannot rebuild
+        if st == 'failed' and ' is ' in ex and 'old(' in (ex + str(info.get('let'))):
+            st = 'error'          # identity against old(): the native pre-state is a deep copy, identity cannot be judged
+        out['clauses'].append([nm, st, d])
+    print(json.dumps(out))
+
+
 def main():
+    if sys.argv[1] == '--smoke':
+        return smoke(sys.argv[2])
     info = json.load(open(sys.argv[1]))
     cm = info.get('counter_model') or {}
     out = {'result': 'not-reproduced'}
